@@ -15,11 +15,8 @@ Definition src_nameb (x : str) : bool :=
 Definition ok_expr (B : list str) (e : expr) : bool :=
   pure e && lits_ok e && forallb (fun x => src_nameb x && mem_str x B) (used_e e).
 Definition arith5 (o : binop) : bool := match o with BAdd | BSub | BMul | BDiv | BMod => true | _ => false end.
-(* loop bounds that need no temporary register: a literal or a variable *)
-Definition simple_expr (B : list str) (e : expr) : bool :=
-  match e with EInt z => i32_ok z | EVar y => src_nameb y && mem_str y B | _ => false end.
-Definition step_ok (st : option expr) : bool :=
-  match st with None => true | Some (EInt z) => i32_ok z | Some _ => false end.
+Definition step_ok (B : list str) (st : option expr) : bool :=
+  match st with None => true | Some e => ok_expr B e end.
 
 Fixpoint ok_stmt (il : bool) (B : list str) (s : stmt) {struct s} : bool :=
   let fix okb (il : bool) (B : list str) (l : list stmt) {struct l} : bool :=
@@ -35,7 +32,7 @@ Fixpoint ok_stmt (il : bool) (B : list str) (s : stmt) {struct s} : bool :=
   | SIfElif c b n => ok_expr B c && okb il B b && ok_stmt il B n
   | SWhile c b => ok_expr B c && okb true B b
   | SFrom a b _ st (Some x) false body =>
-    src_nameb x && negb (mem_str x B) && ok_expr B a && simple_expr B b && step_ok st && okb true (x :: B) body
+    src_nameb x && negb (mem_str x B) && ok_expr B a && ok_expr B b && step_ok (x :: B) st && okb true (x :: B) body
   | SBreak => il
   | SContinue => il
   | _ => false
@@ -53,7 +50,7 @@ Proof. reflexivity. Qed.
 Lemma ok_SWhile : forall il B c b, ok_stmt il B (SWhile c b) = ok_expr B c && ok_block true B b.
 Proof. reflexivity. Qed.
 Lemma ok_SFrom : forall il B a b incl st x body, ok_stmt il B (SFrom a b incl st (Some x) false body) =
-  src_nameb x && negb (mem_str x B) && ok_expr B a && simple_expr B b && step_ok st && ok_block true (x :: B) body.
+  src_nameb x && negb (mem_str x B) && ok_expr B a && ok_expr B b && step_ok (x :: B) st && ok_block true (x :: B) body.
 Proof. reflexivity. Qed.
 
 Lemma src_nameb_ok : forall x, src_nameb x = true -> uname x.
@@ -274,16 +271,12 @@ Proof.
     destruct nm as [x|]; [|discriminate]. destruct col; [discriminate|].
     rewrite ok_SFrom in H. okx H.
     rewrite cstmt_SFrom, sitems_SFrom, (cexpr_ok B) by assumption.
-    assert (Hob : ok_expr B b = true).
-    { unfold ok_expr. destruct b; try discriminate; cbn [simple_expr pure lits_ok used_e forallb] in *.
-      - now rewrite H2.
-      - now rewrite H2. }
     rewrite (cexpr_ok B) by assumption.
     cbv zeta. rewrite (cblockT_frag c body Hbody true (x :: B) _ _) by assumption. cbn [lreg fid fbuf].
     assert (Est : forall stx : cst, {| fid := fid stx; lreg := S (lreg stx) - 1; fbuf := fbuf stx |} = stx).
     { intros [f l0 fb]. cbn. now rewrite Nat.sub_0_r. }
     destruct step as [e|].
-    + destruct e; try discriminate. cbn [cexpr step_code pcode map]. cbn [lreg fid fbuf]. rewrite Est. reflexivity.
+    + cbn [step_ok] in H3. rewrite (cexpr_ok (x :: B)) by assumption. cbn [step_code]. cbn [lreg fid fbuf]. rewrite Est. reflexivity.
     + cbn [step_code]. cbn [lreg fid fbuf]. rewrite Est. reflexivity.
   - intros il B sl st H. reflexivity.
   - intros il B sl st H. reflexivity.
